@@ -174,6 +174,17 @@ impl A2 {
                 }
             }
         }
+        // a fault-free encryption over any conforming source must produce a file that the
+        // independent reader decrypts to exactly the plaintext
+        if !e.any_fault && s.dir == Dir::Enc && twin.run.outcome.is_ok() {
+            let fixed = !matches!(&s.mode, Mode::Key { e_priv: None, .. } | Mode::Key { omit_e_pub: true, .. });
+            let _ = fixed;
+            let (v, _) = reference_verdict(&s.mode, &twin.run.sink, &mut |p, salt| ref_scrypt_cached(p, salt));
+            if !v.accepted() || v.plaintext() != pt {
+                out.violations.push(viol("C10", "fault_free_result_wrong", format!("fault-free encryption with read caps {:?} / write caps {:?} produced a file the reference reader {} (plaintext equal: {})", &s.rs.caps[..s.rs.caps.len().min(4)], &s.ws.caps[..s.ws.caps.len().min(4)], if v.accepted() { "accepts" } else { "rejects" }, v.plaintext() == pt)));
+            }
+            out.count("probe.fault_free_reference_read", 1);
+        }
         // "the same result over any conforming source and sink": how the sink splits the output
         // across write calls must not change a single byte of it (checked on fault-free runs)
         if !e.any_fault && s.dir == Dir::Enc && !s.ws.caps.is_empty() && twin.run.outcome.is_ok() {
@@ -397,6 +408,14 @@ impl Family for A2 {
             for kind in [IoFault::Interrupted, IoFault::Hard, IoFault::WouldBlock] {
                 let mut rs = base.rs.clone();
                 rs.faults = vec![(k, kind)];
+                one(rs, base.ws.clone());
+            }
+        }
+        // bursts of consecutive interruptions starting at every read call (a signal storm)
+        for k in 0..r.min(40) {
+            for m in [2usize, 3, 4] {
+                let mut rs = base.rs.clone();
+                rs.faults = (0..m).map(|j| (k + j, IoFault::Interrupted)).collect();
                 one(rs, base.ws.clone());
             }
         }
